@@ -117,6 +117,11 @@ pub fn exercise_loaded(rec: &mut Rec, mbi: &BootInformation, opts: &MbiOpts) {
                 rec.t.push("w.end", Val::Txt("step-bound".into()));
                 break;
             }
+            // size_hint() must be callable at every point (it may be conservative)
+            if i < 8 {
+                let sh = catch(|| it.size_hint());
+                rec.t.push(format!("w.dbg.size_hint{i}"), sh.map_or(Val::Panic, |(lo, hi)| Val::Txt(format!("{lo}..{hi:?}"))));
+            }
             match catch(|| it.next()) {
                 None => {
                     rec.t.push(format!("w{i}"), Val::Panic);
@@ -163,7 +168,7 @@ pub fn exercise_loaded(rec: &mut Rec, mbi: &BootInformation, opts: &MbiOpts) {
     // --- the same walk through nth() / count() (secondary iterator methods) ---
     {
         let n = items.len();
-        let mut ks = vec![0usize, 1, 2, n / 2, n.saturating_sub(1), n, n + 1];
+        let mut ks = vec![0usize, 1, 2, n / 2, n.saturating_sub(1), n, n + 1, n + 2, n + 3, n + 9];
         ks.sort_unstable();
         ks.dedup();
         for k in ks {
@@ -256,6 +261,10 @@ pub fn exercise_loaded(rec: &mut Rec, mbi: &BootInformation, opts: &MbiOpts) {
                 Some(Some(m)) => {
                     let v = rec.ext(m);
                     rec.t.push(format!("m{i}"), v);
+                    if opts.debug && i < 2 {
+                        dbg(rec, format!("m{i}.dbg.iter"), &it, true);
+                        let _ = catch(|| it.size_hint());
+                    }
                     i += 1;
                 }
             }
@@ -502,9 +511,16 @@ pub fn typed_tag_as(rec: &mut Rec, p: &str, tag: &Generic, kind: u32, opts: &Mbi
                                 u!(rec, q, "~end", s.end_address());
                                 u!(rec, q, "len_after", it.len());
                                 dbg(rec, format!("{q}.dbg"), &s, d);
+                                if d && j < 2 {
+                                    dbg(rec, format!("{q}.dbg.iter"), &it, true);
+                                }
                                 j += 1;
                             }
                         }
+                    }
+                    if d {
+                        dbg(rec, format!("{p}.s.dbg.end"), &it, true);
+                        let _ = catch(|| it.size_hint());
                     }
                 }
             }
@@ -624,9 +640,17 @@ pub fn typed_tag_as(rec: &mut Rec, p: &str, tag: &Generic, kind: u32, opts: &Mbi
                                 u!(rec, q, "pages", desc.page_count);
                                 u!(rec, q, "att", desc.att.bits());
                                 u!(rec, q, "len_after", it.len());
+                                if d && j < 2 {
+                                    dbg(rec, format!("{q}.dbg.iter"), &it, true);
+                                }
                                 j += 1;
                             }
                         }
+                    }
+                    if d {
+                        // the (possibly exhausted / panicked) iterator object itself
+                        dbg(rec, format!("{p}.e.dbg.end"), &it, true);
+                        let _ = catch(|| it.size_hint());
                     }
                 }
             }
